@@ -4,6 +4,7 @@
   period `k+1` without failing while the days stay inside datetime's range.
 -/
 import DateutilVerif.Proofs.RRuleBridge
+import DateutilVerif.Proofs.RRuleRange
 
 namespace RRule
 open Cal
@@ -87,78 +88,57 @@ structure DailyGood (a : Args) (r : Rule) (k : Nat) (st : State) : Prop where
   nwd : st.info.nwdaymask = none
   valid : ValidYMD st.cur.year st.cur.month st.cur.day
   ord : curOrd st.cur = Spec.RRule.startOrd a + k * a.interval
-  timeset : st.timeset = [(a.dtstart.hh, a.dtstart.mm, a.dtstart.ss)]
+  timeset : st.timeset = Spec.RRule.timesOf a none none none
 
 theorem startOrd_pos (da : DailyArgs a) : 1 ≤ Spec.RRule.startOrd a := by
   have hv := da.valid
   unfold DT.Valid ValidDate at hv
   exact toOrdinal_pos _ _ _ hv.1.1 hv.1.2.2
 
-/-- the specification's candidates of period `k` of a DAILY argument set -/
-theorem daily_sel (da : DailyArgs a) (k : Nat) :
-    Spec.RRule.sel a (k : Int) =
-      if Spec.RRule.dateOk a (Spec.RRule.startOrd a + k * a.interval) then
-        [{ ord := Spec.RRule.startOrd a + k * a.interval, h := a.dtstart.hh, m := a.dtstart.mm, s := a.dtstart.ss }]
-      else [] := by
-  unfold Spec.RRule.sel Spec.RRule.selOf Spec.RRule.cand Spec.RRule.candAt
-  rw [da.bysetpos]
-  dsimp only
-  have hsp : Spec.RRule.periodSpan a (k * a.interval) =
+theorem daily_span (da : DailyArgs a) (k : Nat) :
+    Spec.RRule.periodSpan a (k * a.interval) =
       (Spec.RRule.startOrd a + k * a.interval, Spec.RRule.startOrd a + k * a.interval + 1, none, none, none) := by
-    unfold Spec.RRule.periodSpan; simp [da.freq]
-  rw [hsp]; dsimp only
-  have hts : Spec.RRule.timesOf a none none none = [(a.dtstart.hh, a.dtstart.mm, a.dtstart.ss)] := by
-    unfold Spec.RRule.timesOf Spec.RRule.hours Spec.RRule.minutes Spec.RRule.seconds Spec.RRule.restrict
-    simp [da.freq, da.byhour, da.byminute, da.bysecond]
-  rw [hts, intRange_one]
-  by_cases c : Spec.RRule.dateOk a (Spec.RRule.startOrd a + k * a.interval) = true
-  · simp [c]
-  · simp [c]
+  unfold Spec.RRule.periodSpan; simp [da.freq]
 
-/-- the model's results of period `k` -/
+/-- the model's results of period `k`, and where the specification's candidates lie -/
 theorem daily_results (da : DailyArgs a) (h : construct a = .ok r) (k : Nat) (st : State)
     (hg : DailyGood a r k st) (hle : Spec.RRule.startOrd a + k * a.interval ≤ maxOrdinal) :
-    ∃ fl, periodResults r st = .ok (Spec.RRule.sel a (k : Int), none, fl) := by
+    (∃ fl, periodResults r st = .ok (Spec.RRule.sel a (k : Int), none, fl)) ∧
+    ∀ x ∈ Spec.RRule.sel a (k : Int), 0 ≤ x.ord ∧ x.ord ≤ maxOrdinal := by
   have hs := daily_simple da h
-  have hfreq : r.freq = 3 := by rw [daily_rule da h]
-  have hsp : r.bysetpos = none := by rw [daily_rule da h]
+  obtain ⟨bh, bm, bs, hr⟩ := daily_rule da h
+  have hfreq : r.freq = 3 := by rw [hr]
+  have hsp : r.bysetpos = none := by rw [hr]
   have hpos := startOrd_pos da
   have hk : (0 : Int) ≤ k * a.interval := Int.mul_nonneg (by omega) (by have := da.interval; omega)
   have hidx := index_range _ _ _ hg.valid
   have hyo := hg.facts.yearordinal
   have hyl := hg.facts.yearlen
-  unfold periodResults
-  rw [dayset_daily st.cur (by omega) hg.facts hg.valid]
-  dsimp only
+  have hd : dayset r st.info st.cur =
+      .ok (intRange (curOrd st.cur - st.info.yearordinal) (curOrd st.cur - st.info.yearordinal + 1)) := by
+    rw [dayset_daily st.cur (by omega) hg.facts hg.valid, intRange_one]
   have hi0 : 0 ≤ curOrd st.cur - st.info.yearordinal := by unfold curOrd; rw [hyo]; exact hidx.1
-  have hi1 : curOrd st.cur - st.info.yearordinal < st.info.yearlen + 7 := by
+  have hi1 : curOrd st.cur - st.info.yearordinal + 1 ≤ st.info.yearlen + 7 := by
     unfold curOrd; rw [hyo, hyl]; omega
-  have hfd := dayFiltered_simple hs hg.facts hg.nwd _ hi0 hi1
-  have hordeq : st.info.yearordinal + (curOrd st.cur - st.info.yearordinal) =
-      Spec.RRule.startOrd a + k * a.interval := by rw [← hg.ord]; omega
-  rw [hordeq, simpleOk_eq_dateOk da h _ (by omega)] at hfd
-  unfold filterDays
-  rw [hfd]
-  dsimp only
-  unfold filterDays
-  dsimp only
-  rw [hsp, daily_sel da k]
-  simp only [truthy, Bool.false_and, Bool.false_eq_true, ↓reduceIte]
-  by_cases c : Spec.RRule.dateOk a (Spec.RRule.startOrd a + k * a.interval) = true
-  · simp only [c, Bool.not_true, Bool.false_eq_true, ↓reduceIte]
-    refine ⟨false, ?_⟩
-    unfold expandDays
-    rw [hordeq]
-    unfold checkOrd
-    rw [if_pos ⟨by omega, hle⟩]
-    dsimp only
-    unfold expandDays
-    rw [hg.timeset]
-    rfl
-  · have c' : Spec.RRule.dateOk a (Spec.RRule.startOrd a + k * a.interval) = false := by
-      simpa using c
-    simp only [c', Bool.not_false, ↓reduceIte, Bool.false_eq_true]
-    exact ⟨true, by unfold expandDays; rfl⟩
+  have hord := hg.ord
+  obtain ⟨fl, hres⟩ := periodResults_range hs st hg.facts hg.nwd hsp _ _ hd hi0 hi1 (by omega) (by omega)
+  have e1 : st.info.yearordinal + (curOrd st.cur - st.info.yearordinal) =
+      Spec.RRule.startOrd a + k * a.interval := by omega
+  have e2 : st.info.yearordinal + (curOrd st.cur - st.info.yearordinal + 1) =
+      Spec.RRule.startOrd a + k * a.interval + 1 := by omega
+  rw [e1, e2] at hres
+  have hbridge : (intRange (Spec.RRule.startOrd a + k * a.interval) (Spec.RRule.startOrd a + k * a.interval + 1)).filter
+      (simpleOk r) = (intRange (Spec.RRule.startOrd a + k * a.interval)
+        (Spec.RRule.startOrd a + k * a.interval + 1)).filter (Spec.RRule.dateOk a) := by
+    apply List.filter_congr
+    intro o ho
+    exact simpleOk_eq_dateOk da h o (by have := (mem_intRange _ _ _).mp ho; omega)
+  refine ⟨⟨fl, ?_⟩, ?_⟩
+  · rw [hres, hg.timeset, sel_span a da.bysetpos k _ _ (daily_span da k), hbridge]
+  · intro x hx
+    rw [sel_span a da.bysetpos k _ _ (daily_span da k)] at hx
+    have := sel_bounds _ _ _ _ x hx
+    omega
 
 /-- `advance` reaches period `k+1` -/
 theorem daily_next (da : DailyArgs a) (h : construct a = .ok r) (k : Nat) (st : State) (fl : Bool)
@@ -166,8 +146,9 @@ theorem daily_next (da : DailyArgs a) (h : construct a = .ok r) (k : Nat) (st : 
     (hle : Spec.RRule.startOrd a + (k + 1 : Nat) * a.interval ≤ maxOrdinal) :
     ∃ st', advance r { st with count := c } fl = .ok st' ∧ DailyGood a r (k + 1) st' := by
   have hs := daily_simple da h
-  have hfreq : r.freq = 3 := by rw [daily_rule da h]
-  have hint : r.interval = a.interval := by rw [daily_rule da h]
+  obtain ⟨bh, bm, bs, hr⟩ := daily_rule da h
+  have hfreq : r.freq = 3 := by rw [hr]
+  have hint : r.interval = a.interval := by rw [hr]
   have hi := da.interval
   obtain ⟨hm1, hm12, hd1, hd2⟩ := hg.valid
   -- existence
@@ -200,13 +181,13 @@ theorem daily_init (da : DailyArgs a) (h : construct a = .ok r) :
   have hv := da.valid
   unfold DT.Valid ValidDate at hv
   obtain ⟨info, hre, hnw, _, _⟩ := rebuild_simple r hs a.dtstart.y a.dtstart.m hv.1.1 hv.1.2.1
-  have hr := daily_rule da h
+  obtain ⟨bh, bm, bs, hr⟩ := daily_rule da h
   have hd : r.dtstart = { a.dtstart with us := 0 } := by rw [hr]
   have hf : r.freq = 3 := by rw [hr]
-  have hts : r.timeset = some [(a.dtstart.hh, a.dtstart.mm, a.dtstart.ss)] := by rw [hr]
+  have hts : r.timeset = some (Spec.RRule.timesOf a none none none) := by rw [hr]
   refine ⟨{ cur := { year := a.dtstart.y, month := a.dtstart.m, day := a.dtstart.d, hour := a.dtstart.hh,
                      minute := a.dtstart.mm, second := a.dtstart.ss, weekday := r.dtstart.weekday },
-            info := info, timeset := [(a.dtstart.hh, a.dtstart.mm, a.dtstart.ss)], count := r.count }, ?_, ?_, rfl⟩
+            info := info, timeset := Spec.RRule.timesOf a none none none, count := r.count }, ?_, ?_, rfl⟩
   · unfold init
     simp only [hd, bind, Except.bind, hre, hf, hts, pure, Except.pure]
     rfl
@@ -214,8 +195,8 @@ theorem daily_init (da : DailyArgs a) (h : construct a = .ok r) :
     unfold curOrd Spec.RRule.startOrd DT.ordinal; simp
 
 /-- **`iter_eq_spec`, DAILY portion.**  For every argument set with FREQ=DAILY, INTERVAL ≥ 1, a valid
-    start, any BYMONTH / BYMONTHDAY (non-zero members) / BYYEARDAY / BYDAY, any COUNT / UNTIL, and no
-    BYWEEKNO / BYEASTER / BYSETPOS / BYHOUR / BYMINUTE / BYSECOND: the values yielded during the first
+    start, any BYMONTH / BYMONTHDAY (non-zero members) / BYYEARDAY / BYDAY / BYHOUR / BYMINUTE / BYSECOND,
+    any COUNT / UNTIL, and no BYWEEKNO / BYEASTER / BYSETPOS: the values yielded during the first
     `n` periods are exactly the specification's recurrence set of those periods — for every `n`
     whose periods lie inside datetime's range. -/
 theorem iter_eq_spec_daily (da : DailyArgs a) (h : construct a = .ok r) (n : Nat)
@@ -229,17 +210,9 @@ theorem iter_eq_spec_daily (da : DailyArgs a) (h : construct a = .ok r) (n : Nat
     omega
   have sim : Simulation a r n (DailyGood a r) := {
     agree := daily_cuts da h
-    results := fun k st hk hg => daily_results da h k st hg (hmono k (by omega))
+    results := fun k st hk hg => (daily_results da h k st hg (hmono k (by omega))).1
     next := fun k st fl c hk hg => daily_next da h k st fl c hg (hmono (k + 1) (by omega))
-    bounded := by
-      intro k _ hk _ x hx
-      rw [daily_sel da k] at hx
-      have hpos := startOrd_pos da
-      have hk0 : (0 : Int) ≤ k * a.interval := Int.mul_nonneg (by omega) (by omega)
-      have := hmono k (by omega)
-      split at hx
-      · simp at hx; subst hx; dsimp only; omega
-      · simp at hx }
+    bounded := fun k st hk hg => (daily_results da h k st hg (hmono k (by omega))).2 }
   obtain ⟨st0, hinit, hg0, hc0⟩ := daily_init da h
   exact iter_refines sim st0 hinit hg0 hc0 n (by omega)
 
